@@ -188,7 +188,24 @@ def main():
         if args.tier == "thorough":
             for mod in transitive_local_imports("SophtVerif.Props." + pid) if False else []:
                 pass
-        rc, out = sh(["lake", "build"] + mods, cwd=LEAN, timeout=3000)
+        # the drivers of THIS property's correspondences are interpreted (`lean --run`) against the compiled model / generated
+        # modules they import: build those too, so that a driver never runs against a compiled model older than the sources
+        driver_deps = set()
+        for cname in spec.get("correspondence", []):
+            src_py = os.path.join(HERE, *cname.split(":")[0].split(".")) + ".py"
+            text = open(src_py).read() if os.path.exists(src_py) else ""
+            drivers = set(re.findall(r"Driver/(\w+)\.lean", text)) | set(re.findall(r"run_driver\(\s*\"(\w+)\"", text)) | set(re.findall(r"run_cases\(\s*\"(\w+)\"", text))
+            if "per_driver" in text or "driver," in text:
+                drivers |= set(re.findall(r"\"(Prog[23]D)\"", text))
+            for d in drivers:
+                fn = os.path.join(LEAN, "SophtVerif", "Driver", d + ".lean")
+                if os.path.exists(fn):
+                    for line in open(fn):
+                        m = re.match(r"^import (SophtVerif\.\S+)", line)
+                        if m:
+                            driver_deps.add(m.group(1))
+        info["lean"]["driver_modules_built"] = sorted(driver_deps)
+        rc, out = sh(["lake", "build"] + mods + sorted(driver_deps - set(mods)), cwd=LEAN, timeout=3000)
         info["lean"]["build_tail"] = [l for l in out.splitlines() if "warning" not in l][-5:]
         if rc != 0:
             errs = lean_errors(out)
